@@ -135,7 +135,7 @@ extern "C" void h_fragment_valid(void)
 
 extern "C" void h_opus_catalogue(void)
 {
-  DFS::SectorBuffer s16 = symbolic_sector(24);
+  DFS::SectorBuffer s16 = symbolic_sector(14);      // header + volume slots A-C symbolic; D-H absent (bound: <= 3 volumes)
   bool threw_bad = false, threw_other = false; size_t nvol = 0; bool sorted_ok = true, within = true;
   try
     {
